@@ -1,8 +1,21 @@
 (* C16: linesplit is the greedy first-fit wrap of the maximal non-whitespace blocks
-   of the per-character list.  Part A: facts about the reference functions of
-   Spec/StrSpec.v (what the greedy wrap guarantees).  Part B: the scanner of the
-   model against blocks / inner_gaps.  Part C: word_to_lines, the first-fit loop
-   and the main theorem. *)
+   of the per-character list.
+   Part A: facts about the reference functions of Spec/StrSpec.v (what the greedy
+           wrap guarantees: wrap_items_lines_ok, wrap_items_filter; blocks_ok,
+           gaps_go_spaces, gaps_blocks_length) and their commutation with a map over
+           the items (greedy_wrap_map, blocks_map, inner_gaps_map).
+   Part B: the whitespace scanner of the model against blocks / inner_gaps.
+   Part C: word_to_lines = chop, the first-fit loop (loop_wrap), the joiner
+           (meet_sgr_uniform, meet_sgr_le), the partition theorem
+           (blocks_gaps_partition) and the main theorems, all for EVERY operand and
+           EVERY columns >= 1:
+             linesplit_greedy        no exception; cells of the lines = greedy_wrap with meet_joiner
+             linesplit_text_greedy   the same on the text alone
+             linesplit_lines_ok      <= columns cells, begins/ends with a non-space
+             linesplit_len_le        1 <= len(line) <= columns
+             linesplit_conserves     non-space cells conserved in order (is_space 32)
+             linesplit_no_words / linesplit_empty_iff   no lines iff no words
+             linesplit_gaps          the gaps: non-empty, all whitespace, between consecutive words *)
 From Curtsies Require Import Model.Base Spec.ListOps Model.Slice Spec.StrSpec Model.StrMeth Model.LineSplit
                              Proofs.Slice Proofs.StrMeth.
 From Curtsies Require Model.Atts.
